@@ -245,7 +245,7 @@ def packet_unit(cls):
                 functions=['SshRecordBase.compose'])
 
 
-def units(tier, seed):
+def _units_body(tier, seed):
     from cryptoparser.ssh import key as SK
     from checks import foundation
     by_name = {c.__name__: c for c in e1.binary_classes()}
@@ -265,6 +265,12 @@ def units(tier, seed):
     from checks import tables as _tables
     _table_units = _tables.units(_tables.SSH)
     return out + foundation.units(tier, seed) + _table_units
+
+
+
+def units(tier, seed):
+    from checks import canary
+    return list(_units_body(tier, seed)) + [canary.padding_five()]
 
 
 FINDING_REPLAYS = {}
